@@ -13,6 +13,7 @@
 from __future__ import annotations
 
 import time as _time
+from pathlib import Path
 from typing import Any
 
 EPOCH = 1_000_000.0
@@ -71,6 +72,7 @@ def make_hw(clock: Clock):
             self._is_connected = True
             self.values: dict[str, Any] = {"T0": 0, "T1": 0, "T2": 0, "Tot": 0.0}
             self.skew = 0.0
+            self.written: dict[str, Any] = {}
 
         def tick(self):
             # wall time passing inside the tick (only in the skewed-clock search runs)
@@ -80,14 +82,17 @@ def make_hw(clock: Clock):
             return self.values[r.name]
 
         def write(self, value, r):
-            pass
+            self.written[r.name] = value
 
     return PlanHardware()
 
 
-def make_uod(clock: Clock, exec_log: list):
+OUT_COMMANDS = {"OutA": 1.0, "OutB": 2.0}     # UOD commands that set the output tag `Out` (safe value 0.0)
+
+
+def make_uod(clock: Clock, exec_log: list, holder: dict | None = None):
     from openpectus.engine.hardware import RegisterDirection
-    from openpectus.lang.exec.tags import Tag
+    from openpectus.lang.exec.tags import Tag, TagDirection
     from openpectus.lang.exec.tags_impl import ReadingTag
     from openpectus.lang.exec.uod import UodBuilder, UodCommand
 
@@ -107,8 +112,22 @@ def make_uod(clock: Clock, exec_log: list):
     b = b.with_tag(ReadingTag("Tot", unit="L")).with_hardware_register("Tot", RegisterDirection.Read)
     b = b.with_tag(Tag(name="CVol", value=2.0, unit="L"))
     b = b.with_accumulated_volume("Tot").with_accumulated_cv("CVol", "Tot")
+    # an output: written to the hardware, forced to its safe value while the run is paused / held / stopped
+    b = b.with_tag(Tag(name="Out", value=0.0, direction=TagDirection.Output))
+    b = b.with_hardware_register("Out", RegisterDirection.Write, safe_value=0.0)
+
+    def make_out(name: str, value: float):
+        def exec_fn(cmd: UodCommand, **kvargs):
+            exec_log.append(("exec", name))
+            engine = (holder or {}).get("engine")
+            # a UOD author has no tick time at hand; the harness passes the engine's (C16 is about the engine's sites)
+            cmd.context.tags["Out"].set_value(value, engine._tick_time if engine is not None else _time.time())
+            cmd.set_complete()
+        return exec_fn
     for name, it in UOD_COMMANDS.items():
         b = b.with_command(name=name, exec_fn=make_exec(name, it))
+    for name, v in OUT_COMMANDS.items():
+        b = b.with_command(name=name, exec_fn=make_out(name, v))
     b = b.with_command_overlap(["CmdB", "CmdC"])
     return b.build(), hw
 
@@ -123,10 +142,12 @@ class TagRun:
         self.clock = Clock()
         self.clock.install()
         self.exec_log: list = []
-        self.uod, self.hw = make_uod(self.clock, self.exec_log)
+        self.holder: dict = {}
+        self.uod, self.hw = make_uod(self.clock, self.exec_log, self.holder)
         self.hw.skew = skew
         self.start_time = self.clock.now
         self.engine = Engine(self.uod, EngineTiming(WallClock(), NullTimer(), dt, 1.0))
+        self.holder["engine"] = self.engine
         self.engine.run(skip_timer_start=True)
         if pcode is not None:
             self.engine.set_method(Mdl.Method.from_pcode(pcode))
@@ -182,84 +203,156 @@ class TagRun:
 # trace recorder
 
 class Recorder:
-    """Logs, for the tags registered in `run.engine`, every primitive call and every direct field assignment."""
+    """Logs, for the tags registered in `run.engine`: the start of every Engine.tick (with the time it was given),
+    the phases of the tick (read_process_image, interpreter.tick, update_calculated_tags, command_manager.tick),
+    every primitive call with the *call site* (file, line of the outermost caller that is not itself a
+    set_value/simulate_value wrapper), the time it passed and whether it changed a field, every direct field
+    assignment outside the primitives (`silent`, `stamp`, with site), and notify_tag_updates.
+
+    entries: ("tick", t, wall) ("phase", name) ("set"|"sim", i, val, t, site, changed) ("simfail", i)
+             ("simoff", i, changed) ("silent", i, val, site) ("stamp", i, t, site) ("raw:<field>", i, val) ("notify",)"""
     FIELDS = ("value", "simulated_value", "simulated", "tick_time")
+    WRAPPERS = ("set_value", "set_value_and_unit", "simulate_value", "simulate_value_and_unit", "stop_simulation")
 
     def __init__(self, run: TagRun):
+        import openpectus
+        from openpectus.engine.command_manager import CommandManager
         from openpectus.engine.engine import Engine
+        from openpectus.lang.exec.pinterpreter import PInterpreter
         from openpectus.lang.exec.tags import Tag
-        self.Tag, self.Engine = Tag, Engine
+        self.Tag, self.Engine, self.PInterpreter, self.CommandManager = Tag, Engine, PInterpreter, CommandManager
+        self.root = str(Path(openpectus.__file__).resolve().parent) + "/"
         self.run = run
         self.ids = {id(t): i for i, t in enumerate(run.tags())}
         self.log: list[tuple] = []
         self.depth = 0
         self._saved: dict[str, Any] = {}
 
+    def site(self, frame) -> tuple[str, int] | None:
+        """(file relative to the openpectus package, line) of the call site; None outside the package"""
+        f = frame
+        while f is not None and f.f_code.co_name in Recorder.WRAPPERS and \
+                f.f_code.co_filename.startswith(self.root):
+            f = f.f_back
+        if f is None or not f.f_code.co_filename.startswith(self.root):
+            return None
+        return f.f_code.co_filename[len(self.root):], f.f_lineno
+
     def install(self):
+        import sys
         Tag, Engine, rec = self.Tag, self.Engine, self
         for name in ("set_value", "simulate_value", "simulate_value_and_unit", "stop_simulation"):
             self._saved[name] = Tag.__dict__[name]
-        self._saved["notify"] = Engine.__dict__["notify_tag_updates"]
+        for name in ("notify_tag_updates", "tick", "read_process_image", "update_calculated_tags"):
+            self._saved["E." + name] = Engine.__dict__[name]
+        self._saved["P.tick"] = self.PInterpreter.__dict__["tick"]
+        self._saved["C.tick"] = self.CommandManager.__dict__["tick"]
         self._saved["had_setattr"] = "__setattr__" in Tag.__dict__
         orig = self._saved
 
+        def fields(tag):
+            return (tag.value, tag.simulated_value, tag.simulated)
+
+        def differs(a, b):
+            return any(not (x is y) and x != y for x, y in zip(a, b))
+
         def set_value(self, val, tick_time):
             i = rec.ids.get(id(self))
-            if i is not None and rec.depth == 0:
-                rec.log.append(("set", i, val, tick_time))
+            top = i is not None and rec.depth == 0
+            if top:
+                before, site = fields(self), rec.site(sys._getframe(1))
             rec.depth += 1
             try:
                 return orig["set_value"](self, val, tick_time)
             finally:
                 rec.depth -= 1
+                if top:
+                    rec.log.append(("set", i, val, tick_time, site, differs(before, fields(self))))
 
         def simulate_value(self, val, tick_time):
             i = rec.ids.get(id(self))
-            if i is not None and rec.depth == 0:
-                rec.log.append(("sim", i, val, tick_time))
+            top = i is not None and rec.depth == 0
+            if top:
+                before, site = fields(self), rec.site(sys._getframe(1))
             rec.depth += 1
             try:
                 return orig["simulate_value"](self, val, tick_time)
             finally:
                 rec.depth -= 1
+                if top:
+                    rec.log.append(("sim", i, val, tick_time, site, differs(before, fields(self))))
 
         def simulate_value_and_unit(self, val, unit, tick_time):
             i = rec.ids.get(id(self))
+            top = i is not None and rec.depth == 0
+            if top:
+                before, site = fields(self), rec.site(sys._getframe(1))
             rec.depth += 1
             try:
                 r = orig["simulate_value_and_unit"](self, val, unit, tick_time)
             except Exception:
                 rec.depth -= 1
-                if i is not None and rec.depth == 0:
+                if top:
                     rec.log.append(("simfail", i))
                 raise
             rec.depth -= 1
-            if i is not None and rec.depth == 0:
-                rec.log.append(("sim", i, self.simulated_value, tick_time))
+            if top:
+                rec.log.append(("sim", i, self.simulated_value, tick_time, site, differs(before, fields(self))))
             return r
 
         def stop_simulation(self):
             i = rec.ids.get(id(self))
-            if i is not None and rec.depth == 0:
-                rec.log.append(("simoff", i))
+            top = i is not None and rec.depth == 0
+            if top:
+                before = fields(self)
             rec.depth += 1
             try:
                 return orig["stop_simulation"](self)
             finally:
                 rec.depth -= 1
+                if top:
+                    rec.log.append(("simoff", i, differs(before, fields(self))))
 
         def setattr_hook(self, name, value):
             if rec.depth == 0 and name in Recorder.FIELDS:
                 i = rec.ids.get(id(self))
                 if i is not None:
-                    kind = {"value": "silent", "tick_time": "stamp"}.get(name, "raw:" + name)
-                    rec.log.append((kind, i, value))
+                    site = rec.site(sys._getframe(1))
+                    if name == "value":
+                        rec.log.append(("silent", i, value, site))
+                    elif name == "tick_time":
+                        rec.log.append(("stamp", i, value, site))
+                    else:
+                        rec.log.append(("raw:" + name, i, value))
             object.__setattr__(self, name, value)
 
         def notify_tag_updates(self):
             if self is rec.run.engine:
                 rec.log.append(("notify",))
-            return orig["notify"](self)
+            return orig["E.notify_tag_updates"](self)
+
+        def e_tick(self, tick_time, increment_time):
+            if self is rec.run.engine:
+                rec.log.append(("tick", tick_time, _time.time()))
+            return orig["E.tick"](self, tick_time, increment_time)
+
+        def e_read(self):
+            if self is rec.run.engine:
+                rec.log.append(("phase", "self.read_process_image"))
+            return orig["E.read_process_image"](self)
+
+        def e_calc(self, tick_time, increment_time):
+            if self is rec.run.engine:
+                rec.log.append(("phase", "self.update_calculated_tags"))
+            return orig["E.update_calculated_tags"](self, tick_time, increment_time)
+
+        def p_tick(self, tick_time, tick_number):
+            rec.log.append(("phase", "self.interpreter.tick"))
+            return orig["P.tick"](self, tick_time, tick_number)
+
+        def c_tick(self, tick_time, tick_number):
+            rec.log.append(("phase", "self._command_manager.tick"))
+            return orig["C.tick"](self, tick_time, tick_number)
 
         Tag.set_value = set_value
         Tag.simulate_value = simulate_value
@@ -267,6 +360,11 @@ class Recorder:
         Tag.stop_simulation = stop_simulation
         Tag.__setattr__ = setattr_hook
         Engine.notify_tag_updates = notify_tag_updates
+        Engine.tick = e_tick
+        Engine.read_process_image = e_read
+        Engine.update_calculated_tags = e_calc
+        self.PInterpreter.tick = p_tick
+        self.CommandManager.tick = c_tick
 
     def uninstall(self):
         Tag, Engine = self.Tag, self.Engine
@@ -274,29 +372,71 @@ class Recorder:
             setattr(Tag, name, self._saved[name])
         if not self._saved["had_setattr"]:
             del Tag.__setattr__
-        Engine.notify_tag_updates = self._saved["notify"]
+        for name in ("notify_tag_updates", "tick", "read_process_image", "update_calculated_tags"):
+            setattr(Engine, name, self._saved["E." + name])
+        self.PInterpreter.tick = self._saved["P.tick"]
+        self.CommandManager.tick = self._saved["C.tick"]
 
 
-def op_line(op: tuple, enc: Enc) -> str:
-    k = op[0]
-    if k in ("set", "sim"):
-        return f"{k}\t{op[1]}\t{enc.val(op[2])}\t{enc.time(op[3])}"
-    if k in ("simfail", "simoff"):
-        return f"{k}\t{op[1]}"
-    if k == "silent":
-        return f"silent\t{op[1]}\t{enc.val(op[2])}"
-    if k == "stamp":
-        return f"stamp\t{op[1]}\t{enc.time(op[2])}"
-    if k == "notify":
-        return "notify"
-    return f"unmodelled\t{k}\t{op[1]}"
+class Wire:
+    """Turns recorder entries into op lines + the answers the real code gives (the time a site actually passed)."""
+    def __init__(self, enc: Enc):
+        self.enc = enc
+        self.stamp_phase = True     # no `phase stamp` needed before the first tick
+
+    def op(self, op: tuple) -> list[tuple[str, str]]:
+        enc, k = self.enc, op[0]
+        if k == "tick":
+            self.stamp_phase = False
+            return [(f"tick\t{enc.time(op[1])}\t{enc.time(op[2])}", "ok")]
+        if k == "phase":
+            return [(f"phase\t{op[1]}", "ok")]
+        if k in ("set", "sim"):
+            if op[4] is not None:
+                return [(f"sat\t{op[4][0]}\t{op[4][1]}\t{k}\t{op[1]}\t{enc.val(op[2])}", "t=" + enc.time(op[3]))]
+            return [(f"{k}\t{op[1]}\t{enc.val(op[2])}\t{enc.time(op[3])}", "ok")]
+        if k == "simfail":
+            return [(f"simfail\t{op[1]}", "ok")]
+        if k == "simoff":
+            return [(f"simoff\t{op[1]}", "ok")]
+        if k == "silent":
+            return [(f"silent\t{op[1]}\t{enc.val(op[2])}", "ok")]
+        if k == "stamp":
+            if op[3] is not None:
+                out = []
+                if op[3][0] == "engine/engine.py" and not self.stamp_phase:
+                    self.stamp_phase = True
+                    out.append(("phase\tstamp", "ok"))
+                out.append((f"stat\t{op[3][0]}\t{op[3][1]}\t{op[1]}", "t=" + enc.time(op[2])))
+                return out
+            return [(f"stamp\t{op[1]}\t{enc.time(op[2])}", "ok")]
+        if k == "notify":
+            return [("notify", "ok")]
+        return [(f"unmodelled\t{k}\t{op[1]}", "ok")]
 
 
-def report_line(rep: list, names: dict[str, int], enc: Enc) -> str:
-    items = sorted((names[t.name], t) for t in rep)
-    if not items:
-        return "-"
-    return ";".join(f"{i}:{enc.val(t.value)}:{enc.time(t.tick_time)}:{1 if t.simulated else 0}" for i, t in items)
+class View:
+    """What the receiver of the reports knows: last reported (value, time, simulated) per tag.  Reports are
+    compared modulo entries that tell the receiver nothing new (a notification of an unchanged tag is neither
+    required nor forbidden by the property)."""
+    def __init__(self, run: "TagRun | None" = None, enc: Enc | None = None):
+        # the receiver knows the state the run starts from (as after an initial snapshot)
+        self.known: dict[int, tuple[str, str, int]] = {}
+        if run is not None and enc is not None:
+            for i, t in enumerate(run.tags()):
+                self.known[i] = (enc.val(t.value), enc.time(t.tick_time), 0)
+
+    def line(self, rep: list, names: dict[str, int], enc: Enc, snapshot: bool) -> str:
+        items = sorted((names[t.name], t) for t in rep)
+        news = []
+        for i, t in items:
+            e = (enc.val(t.value), enc.time(t.tick_time), 1 if t.simulated else 0)
+            k = self.known.get(i)
+            if k is None or (k[0], k[2]) != (e[0], e[2]):     # a new time alone is not a change of the tag
+                self.known[i] = e
+                news.append(f"{i}:{e[0]}:{e[1]}:{e[2]}")
+        head = f"S{len(items)}|" if snapshot else ""
+        return head + (";".join(news) if news else "-")
 
 
 def decl_lines(run: TagRun, enc: Enc) -> list[str]:
@@ -311,6 +451,7 @@ def decl_lines(run: TagRun, enc: Enc) -> list[str]:
 SIM_LINES = ["Simulate: T0 = 5", "Simulate: T1 = 2", "Simulate: Tot = 2 L", "Simulate off: T0", "Simulate off: T1",
              "Simulate off: Tot", "Simulate: Block = X", "Simulate off: Block", "Simulate: Mark = zz",
              "Simulate off: Mark", "Simulate: Block Time = 5 s", "Simulate off: Block Time"]
+OUT_LINES = ["OutA", "OutB", "OutA", "OutB", "Pause: 0.5s", "Hold: 0.5s"]   # output changes + timed safe-state episodes
 BAD_SIM_LINES = ["Simulate: T1 = 3 L", "Simulate: T2 = 1 kg", "Simulate: Tot = 2 kg", "Simulate off: Nosuch"]
 USER_CMDS = ["Pause", "Unpause", "Hold", "Unhold", "Stop", "Start", "Restart"]
 
@@ -325,6 +466,11 @@ def gen_case(rng, malformed: bool = False, ticks: int = 40) -> dict:
         indent = ref[:len(ref) - len(ref.lstrip(" "))] if ref.strip() else ""
         pool = SIM_LINES + (BAD_SIM_LINES if malformed or rng.random() < 0.1 else [])
         lines.insert(pos, indent + rng.choice(pool))
+    for _ in range(rng.choice([0, 1, 1, 2, 3])):      # the output tag: set by UOD commands, forced safe on pause/hold
+        pos = int(rng.random() ** 2 * (len(lines) + 1))
+        ref = lines[pos] if pos < len(lines) else (lines[-1] if lines else "")
+        indent = ref[:len(ref) - len(ref.lstrip(" "))] if ref.strip() else ""
+        lines.insert(pos, indent + rng.choice(OUT_LINES))
     sched = []
     tot = 0.0
     next_report = rng.randrange(1, 6)
@@ -346,6 +492,34 @@ def gen_case(rng, malformed: bool = False, ticks: int = 40) -> dict:
             next_report = rng.randrange(1, 6)
         sched.append({"dt": rng.choice([0.125, 0.125, 0.25, 0.5]), "hw": hw, "user": user, "report": rep})
     return {"pcode": "\n".join(lines), "sched": sched, "malformed": malformed}
+
+
+LOCK_PROGRAMS = [
+    # a Block inside an interrupt becomes due while another block holds the block lock: it is first visited in one
+    # tick and gets the lock (and sets the Block tag) ticks later
+    "Watch: T0 > 0\n    Block: B2\n        Mark: x\n        End block\nBlock: B1\n    Wait: {w}s\n    End block\nMark: after\nWait: 1s\n",
+    "Alarm: T1 > 1\n    Block: BA\n        OutA\n        End block\nBlock: B1\n    Mark: m\n    Wait: {w}s\n    End block\nBlock: B3\n    Wait: 0.5s\n    End block\n",
+    "Watch: T0 > 0\n    Block: B2\n        Wait: 0.25s\n        End block\nWatch: T1 > 0\n    Block: B4\n        Mark: y\n        End block\nBlock: B1\n    Wait: {w}s\n    End block\nMark: after\n",
+]
+
+
+def gen_lock_case(rng, ticks: int = 48) -> dict:
+    """Block-lock contention: the register that arms the Watch/Alarm changes while the main block is waiting."""
+    w = rng.choice([0.5, 0.75, 1, 1.5])
+    pcode = rng.choice(LOCK_PROGRAMS).format(w=w)
+    arm = rng.randrange(5, 5 + int(w * 8))           # some tick inside the main block's Wait
+    sched = []
+    tot = 0.0
+    for k in range(ticks):
+        hw = {}
+        if k == arm:
+            hw = {"T0": rng.randrange(1, 4), "T1": rng.randrange(2, 4)}
+        if rng.random() < 0.3:
+            tot += 0.125
+            hw["Tot"] = tot
+        sched.append({"dt": 0.125, "hw": hw, "user": None,
+                      "report": ("snap" if rng.random() < 0.1 else "upd") if rng.random() < 0.6 else None})
+    return {"pcode": pcode, "sched": sched, "malformed": False}
 
 
 GAP_PROGRAMS = [
@@ -411,28 +585,43 @@ def gen_gap_case(rng, max_gap: int = 300, total: int = 400) -> dict:
     return {"pcode": pcode, "sched": sched, "malformed": False, "gaps": gaps}
 
 
-def run_case(case: dict, record: bool = False, skew: float = 0.0) -> dict:
-    """Run the real engine.  Returns per-report observations for the oracles and, with `record`, the operation
-    trace and the canonical answers for the model."""
+def run_case(case: dict, record: bool = False, skew: float = 0.0, observe: bool = False) -> dict:
+    """Run the real engine.  Returns per-report observations for the oracles.  With `record`: the operation trace
+    and the canonical answers for the model.  With `record` or `observe`: `mut`, the list of
+    (tick index, tag name, 'set'|'sim'|'stamp') of every primitive call that changed a field of the tag and of
+    every direct assignment to a tag's tick_time (what the C16 oracle needs to know the tick of the last change)."""
     run = TagRun(case["pcode"], skew=skew)
     enc = Enc()
-    rec = Recorder(run) if record else None
-    names = {str(t.name): i for i, t in enumerate(run.tags())}
-    classes = {str(t.name): [c.__name__ for c in type(t).__mro__] for t in run.tags()}
+    rec = Recorder(run) if (record or observe) else None
+    wire, view = Wire(enc), View(run, enc)
+    tags = run.tags()
+    names = {str(t.name): i for i, t in enumerate(tags)}
+    by_idx = {i: n for n, i in names.items()}
+    classes = {str(t.name): [c.__name__ for c in type(t).__mro__] for t in tags}
+    n_sys = len(run.engine._system_tags.tags)
     lines: list[str] = []
     answers: list[str] = []
     obs: list[dict] = []
+    mut: list[tuple] = []
+    cur_tick = [-1]
     try:
-        if rec:
+        if record:
             lines += decl_lines(run, enc)
             answers += ["ok"] * len(lines)
+        if rec:
             rec.install()
 
         def flush():
             if rec:
                 for op in rec.log:
-                    lines.append(op_line(op, enc))
-                    answers.append("ok")
+                    if op[0] in ("set", "sim") and op[5]:
+                        mut.append((cur_tick[0], by_idx[op[1]], op[0]))
+                    elif op[0] == "stamp":
+                        mut.append((cur_tick[0], by_idx[op[1]], "stamp"))
+                    if record:
+                        for ln, ans in wire.op(op):
+                            lines.append(ln)
+                            answers.append(ans)
                 rec.log.clear()
 
         def take(kind: str, tick_index: int):
@@ -445,9 +634,9 @@ def run_case(case: dict, record: bool = False, skew: float = 0.0) -> dict:
                 if rec:
                     rec.depth -= 1
                     rec.log.clear()
-            if rec:
+            if record:
                 lines.append(f"collect\t{1 if kind == 'snap' else 0}\t{enc.time(run.clock.now)}")
-                answers.append(report_line(rep, names, enc))
+                answers.append(view.line(rep, names, enc, kind == "snap"))
             obs.append({"kind": kind, "tick": tick_index, "now": run.clock.now,
                         "entries": [(str(t.name), t.value, t.tick_time, bool(t.simulated)) for t in rep],
                         "readonly": run.readonly(), "all_names": list(names)})
@@ -457,13 +646,17 @@ def run_case(case: dict, record: bool = False, skew: float = 0.0) -> dict:
         for k, st in enumerate(case["sched"]):
             if st.get("user"):
                 run.user(st["user"])
+            cur_tick[0] = k
             run.tick(st["dt"], st["hw"])
+            flush()
             field_hist.append(run.fields())
             if st.get("report"):
                 take(st["report"], k)
         flush()
         return {"obs": obs, "fields": field_hist, "tick_times": list(run.tick_times), "start": run.start_time,
-                "lines": lines, "answers": answers, "raised": list(run.raised), "skew": skew, "classes": classes}
+                "lines": lines, "answers": answers, "raised": list(run.raised), "skew": skew, "classes": classes,
+                "mut": mut if rec else None, "system": [by_idx[i] for i in range(n_sys)],
+                "written": dict(run.hw.written)}
     finally:
         if rec:
             rec.uninstall()
@@ -481,6 +674,7 @@ def run_unit_ops(ops: list[list]) -> tuple[list[str], list[str]]:
     from openpectus.lang.exec.events import BlockInfo, RunStateChange, ScopeInfo
     run = TagRun("", start=False)
     enc = Enc()
+    view = View(run, enc)
     try:
         tags = run.tags()
         names = {t.name: i for i, t in enumerate(tags)}
@@ -527,7 +721,7 @@ def run_unit_ops(ops: list[list]) -> tuple[list[str], list[str]]:
                 run.clock.now = op[2]
                 rep = run.report(snapshot=bool(op[1]))
                 lines.append(f"collect\t{1 if op[1] else 0}\t{enc.time(op[2])}")
-                answers.append(report_line(rep, names, enc))
+                answers.append(view.line(rep, names, enc, bool(op[1])))
             elif k in ("bt", "st"):
                 tag = bt if k == "bt" else st
                 ev, args = op[1], op[2:]
@@ -580,12 +774,13 @@ def run_unit_ops(ops: list[list]) -> tuple[list[str], list[str]]:
 # level A generators
 
 UNIT_TAGS = {  # name -> (values for set, values for simulate)
-    "Block": ([None, "A", "B"], ["X", "A", None]),
+    "Block": ([None, "A", "B"], ["X", "A"]),
     "Run Counter": ([0, 1, 2], [7, 1]),
-    "T0": ([0, 1, 2, None], [5, 1, None]),
+    "T0": ([0, 1, 2, None], [5, 1]),
     "T1": ([0, 3], [3]),
     "Tot": ([0.0, 0.5, 1.0, None], [2.0, 0.5]),
     "CVol": ([2.0, 4.0], [8.0]),
+    "Out": ([0.0, 1.0, 2.0], [3.0]),
     "Block Time": ([0.0, 0.125, 5.0, None], [5.0, 0.125]),
     "Scope Time": ([0.0, 0.25, None], [1.0]),
 }
@@ -630,6 +825,9 @@ def gen_unit_ops(rng, n_ops: int) -> list[list]:
                 hw["Tot"] = rng.choice([0.0, 0.5, 1.0, 1.5])
             ops.append(["etick", now if rng.random() < 0.9 else now - 1.0, dict(hw)])
         elif x < 0.80:
+            # reports are taken at tick boundaries (after notify_tag_updates): which unchanged tags happen to sit in
+            # the queue must not decide whether a not-yet-notified change is seen
+            ops.append(["notify"])
             ops.append(["collect", rng.random() < 0.25, now])
         elif x < 0.90:
             ev = rng.choice(["start", "bstart", "bstart", "bend", "tick", "tick", "tick", "pause", "unpause"])
@@ -657,7 +855,9 @@ def gen_unit_ops(rng, n_ops: int) -> list[list]:
 
 EXH_ALPHABET: list[list] = (
     [["set", n, v] for n, vs in (("Block", [None, "A"]), ("T0", [0, 1])) for v in vs]
-    + [["sim", n, v] for n, vs in (("Block", ["A", None]), ("T0", [1, None])) for v in vs]
+    # simulate_value(None, …) is left out: it is outside the property's operation set (the interpreter never issues
+    # it) and whether its silent flip becomes visible depends on unrelated earlier notifications
+    + [["sim", n, v] for n, vs in (("Block", ["A", "B"]), ("T0", [1, 2])) for v in vs]
     + [["simoff", "Block"], ["simoff", "T0"], ["simfail", "Block"], ["simfail", "T0"],
        ["notify"], ["collect", False], ["collect", True],
        ["bt", "bstart"], ["bt", "tick"], ["bt", "start"]]
@@ -676,6 +876,7 @@ def exhaustive_unit_ops(max_len: int):
                 if a[0] in ("set", "sim"):
                     ops.append([a[0], a[1], a[2], now])
                 elif a[0] == "collect":
+                    ops.append(["notify"])          # reports at tick boundaries
                     ops.append(["collect", a[1], now])
                 elif a[0] == "bt" and a[1] == "tick":
                     ops.append(["bt", "tick", now, 0.125])
